@@ -177,6 +177,9 @@ def work(ctx):
                          "++ ser_bool (view_wf cfg code (map fst kst)) "
                          "| Err _ => [2] end | Err _ => [3] end | Err _ => [4] end)".replace("PAIR", PAIR) % E.g_cd(d),
                          [1, 1, 1], "data_wf, composed K2 conclusion and view_wf of the emitted code on %s" % what, "wf-monitor")
+                # the totality theorem: on data_wf data, enc_ok holds (to_code returned a code object here)
+                ctx.case("(let d := %s in match mapM_cd PAIR d with OK d' => ser_bool (data_wf cfg d') ++ ser_bool (enc_ok cfg d') | Err _ => [4] end)".replace("PAIR", PAIR) % E.g_cd(d),
+                         [1, 1], "data_wf and enc_ok (to_code returned) on %s" % what, "wf-monitor")
                 ncases += 1
             except E.Unsupported:
                 pass
